@@ -224,7 +224,7 @@ def run_cases(cases, procs=None, budget_s=None, min_cases=0):
     t0 = time.time()
     out = []
     with ctx.Pool(procs) as pool:
-        step = procs
+        step = max(1, procs // 2) if budget_s is not None else procs * 2
         for a in range(0, len(cases), step):
             if budget_s is not None and a >= min_cases and time.time() - t0 > budget_s:
                 break
@@ -336,8 +336,8 @@ def correspondence(ctx):
     t1 = time.time()
     # (b) real abrupt process exits: a forked child per crash point (both flavours) + normal close, for as many
     #     sequences (in order) as fit the time budget, at least `min_cases`
-    res_fork = run_cases([(i, ops, "all") for i, ops in enumerate(seqs)], budget_s=ctx.n(30, 200),
-                         min_cases=len(corpus) + ctx.n(16, 96))
+    res_fork = run_cases([(i, ops, "all") for i, ops in enumerate(seqs)], budget_s=ctx.n(25, 240),
+                         min_cases=len(corpus) + 3)
     ctx.note(f"C08 correspondence: snapshots of {len(seqs)} sequences in {t1 - t0:.1f}s, real process exits for "
              f"{len(res_fork)} sequences in {time.time() - t1:.1f}s")
     res = res_snap + res_fork
@@ -518,7 +518,7 @@ def oracle(ctx, disagreements, broken):
     n = ctx.n(60, 300) * (8 if broken else 1)
     seqs += [gen_ops(ctx.rng, ctx.n(4, 6)) for _ in range(n)] + load_corpus()
     # real process exits for the witness / corpus / disagreeing inputs (and a few fresh ones), snapshots for the rest
-    nreal += ctx.n(2, 6) * (4 if broken else 1)
+    nreal += ctx.n(1, 3) * (4 if broken else 1)
     res = run_cases([(i, ops, "all") for i, ops in enumerate(seqs[:nreal])])
     res += run_cases([(i, ops, "snap") for i, ops in enumerate(seqs[nreal:])])
     points = 0
